@@ -34,10 +34,16 @@ PROPS = {
                     "the executor is not a model parameter: task steps interleave arbitrarily, assuming any IOExecute runs each submitted "
                     "task exactly once; def/park/real are harness wrappers; c02_udp_demux assumes well-formed addresses of one family; "
                     "attribution of stream data among several live conns (descriptor table lookup, events of several conns in one batch, "
-                    "descriptor number reuse with stale readable events) is proved on the table model FdTable (c02_attribution) and judged "
-                    "by the per-conn oracle c02-delivery on hread's side conns in the synchronous-read configurations only; with read tasks "
-                    "(AsyncReadInPoller) it is neither proved nor judged by an oracle (hlife checks only data-after-close), and a stale "
-                    "HANG-UP event on a reused descriptor number (it would close the new conn) is not exercised",
+                    "descriptor number reuse with stale readable events) is JUDGED by the per-conn oracle c02-delivery and the side= "
+                    "correspondence on hread's side conns, in the synchronous-read configurations only; the theorem c02_attribution on "
+                    "the table model FdTable is true by construction (every conn of the model has a socket of its own and the proof never "
+                    "uses the lookup function: it would survive any lookup) — it states the bookkeeping the driver prints, not a property of "
+                    "the dispatch; with read tasks (AsyncReadInPoller) attribution is neither proved nor judged by an oracle (hlife checks "
+                    "only data-after-close), and a stale HANG-UP event on a reused descriptor number (it would close the new conn) is not "
+                    "exercised; the write-interest registration gatedrv predicts for the backlog op (ctl= literals Ar/Arwe/Areo/Mrw/Mreo) "
+                    "is driver code — ReadPath has no write interest; the bridge lemmas printed in Audit/C02 (src_masks_wellformed, "
+                    "Life.interest_wrappers, Life.interest_hangup) are about the source masks and Life.interest, which gatedrv does not run: "
+                    "they support ReadPath's assumption 'a FIN is reported with the hang-up flag' in prose only",
             "technique": "Lean 4 proof (inductive invariant over a small-step transition system, decreasing measure) + differential correspondence"},
         "lean": ["NbioVerif.Properties.C02", srcgen.BRIDGE_CONN, "NbioVerif.Lemmas.SrcBridgeLife"], "drivers": ["gatedrv"], "harness": ["hread"],
         "facts": [srcgen.src_facts],
@@ -64,7 +70,8 @@ PROPS = {
                     "history and every interleaving of Life.step from Life.mk — at most one close notification, exactly one once the "
                     "teardown of a conn a poller owns is complete, none for a conn nobody ever saw, never before the open notification, "
                     "the wait group never negative and released at the end, closeErr = argument of the flipping step and stable "
-                    "afterwards, no step touches the descriptor after the teardown, a torn-down conn is not in the fd table, dial "
+                    "afterwards, no step touches the descriptor after the teardown, a torn-down conn has its OWN in-table flag clear (a "
+                    "single-conn statement), dial "
                     "outcome reported at most once / exactly once when the dial is over / success only if the kernel's verdict is "
                     "success, the dial timeout never closes a conn reported as connected. Exactly-one holds in every interleaving; "
                     "the ORDER and wait-group clauses have one stated exception, reachable in the code: the user's own Close racing "
@@ -85,7 +92,13 @@ PROPS = {
                     "the oracle c03-first-cause) — every other op is serialized by the harness; listener-closes-sessions and "
                     "Stop-closes-the-table are compositions in the driver over single-conn models (sampled, not proved); model "
                     "fidelity is sampled on every run; the real-socket steps (accept, client close/reset, real refused dial, peer FIN "
-                    "on a dialed conn) are supporting evidence; c03_closed_ops holds by definition of the model's op/flip steps; that the "
+                    "on a dialed conn) are supporting evidence; c03_table is about one conn's own flag: 'addConn never touches the table entry "
+                    "of the descriptor number's NEW owner' is not expressible in the single-conn model Life — it rests on the two-conn driver "
+                    "composition (op addcr), the oracle c03-close-once and the addconn predicate; of addConn's failure branches the model and "
+                    "the harness cover 'descriptor number beyond the table' (table-too-small dimension: flip + teardown with no poller) and "
+                    "'closed by the open callback' (refused before the table store); the branch 'EPOLL_CTL_ADD fails on an open conn' "
+                    "(clear the entry, closeWithError) is neither a model step (addReg always succeeds) nor exercised for addConn — only "
+                    "its sibling in addDialer is (dialx); c03_closed_ops holds by definition of the model's op/flip steps; that the "
                     "five entry points test the flag under the mutex rests on the closed-test predicates and the ops/log= correspondence; "
                     "the wait-group ghost is not an observable of the correspondence; it is tied only through 'Stop returns' and Go's "
                     "negative-counter panic",
